@@ -14,9 +14,13 @@ def run(ctx):
             raise vlib.MachineryError("QCacheModel.tla violates %s" % r.violation)
     # requests that differ only in type (incl. types without a mnemonic) or class
     types = {"module": "Gen_C08.tla", "cfg": "Gen_C08_types.cfg", "name": "types"}
+    # the same key cached more than once (several outstanding requests, all answered), then flush / expiry
+    # lifetimes more than 2^31 s apart
+    huge = {"module": "GenCacheHuge.tla", "cfg": "GenCacheHuge.cfg", "name": "huge"}
+    dup = {"module": "GenCacheDup.tla", "cfg": "GenCacheDup.cfg", "name": "dupkey"}
     if ctx.quick:
-        gens = [{"module": "Gen_C08.tla", "cfg": "Gen_C08_quick.cfg", "name": "bfs"}, types]
+        gens = [{"module": "Gen_C08.tla", "cfg": "Gen_C08_quick.cfg", "name": "bfs"}, types, dup, huge]
     else:
         gens = [{"module": "Gen_C08.tla", "cfg": "Gen_C08_thorough.cfg", "name": "bfs"},
-                {"module": "Gen_C08.tla", "cfg": "Gen_C08_sim.cfg", "name": "sim", "simulate": 2500, "depth": 16}, types]
+                {"module": "Gen_C08.tla", "cfg": "Gen_C08_sim.cfg", "name": "sim", "simulate": 2500, "depth": 16}, types, dup, huge]
     simlib.engine_check(ctx, gens, FACETS, labels=("c08.",), selftests=mutators.QCACHE)
